@@ -420,6 +420,12 @@ class Runner:
                 k["seen"] = True
                 self.known_hits.append({"obligation": oid, "tag": k["tag"]})
                 continue
+            if v["ob"].kind == "frame" and not reproduced:
+                # a write the contract's frame does not allow, but no failing input on the real code: new LOCAL state (a cache, a counter) trips a
+                # frame without breaking the property -- reported as undecided (exit 2), never as a violation
+                self.problems.append({"function": oid, "where": v["ob"].where, "kind": "frame-undecided",
+                                      "detail": f"frame obligation failed and the replay probes found no failing input ({desc[:160]}); see {path}"})
+                continue
             nviol += 1
             if reproduced:
                 lines.append(f"VIOLATION property={prop} replay={path}")
